@@ -99,11 +99,15 @@ class SimKernel:
         self.last_fault_time = 0.0
         self.child_target = None  # callable(kernel, argv) run as the child process body
         self.trace_enabled = False
+        self.write_log: list[tuple[str, int]] = []
 
     # ------------------------------------------------------------------ processes
     def _fire(self, kind: str) -> None:
         self.fired[kind] = self.fired.get(kind, 0) + 1
         self.last_fault_time = self.clock
+
+    def _fire_count(self, kind: str) -> None:
+        self.fired[kind] = self.fired.get(kind, 0) + 1
 
     def me(self) -> SimProcess | None:
         return self.by_thread.get(threading.get_ident())
@@ -250,6 +254,8 @@ class SimKernel:
                 ready = bool(self._ready(p, b["fds"]))
             elif b["kind"] == "wait":
                 ready = self.procs[b["pid"]].dead
+            elif b["kind"] == "open":
+                ready = getattr(b["fifo"], b["want"]) > 0
             if ready:
                 p.wake = min(p.wake, max(p.now, now))
 
@@ -262,6 +268,12 @@ class SimKernel:
     def _open(self, proc: SimProcess, path: str, flags: int) -> int:
         fifo = self.fifos[path]
         acc = flags & _os.O_ACCMODE
+        if not flags & _os.O_NONBLOCK:
+            # a blocking open of a FIFO waits for the other end (for ever, if it never comes)
+            want = "readers" if acc == _os.O_WRONLY else "writers"
+            while getattr(fifo, want) == 0:
+                self._fire_count("blocking_open_waits")
+                self._block(proc, {"kind": "open", "fifo": fifo, "want": want}, proc.now + 1e9)
         if acc == _os.O_WRONLY:
             if fifo.readers == 0:
                 raise OSError(errno.ENXIO, "No such device or address", path)
@@ -338,6 +350,7 @@ class SimKernel:
                     self._fire("short_write_injected")
         f.buf += data[:count]
         self.messages += 1
+        self.write_log.append((proc.name, proc.syscalls))
         self._wake_waiters(proc.now)
         return count
 
